@@ -1,0 +1,23 @@
+//go:build verif
+
+package parse
+
+// Verification harnesses for gvc (/verif): compiled only with the build tag
+// "verif", never called.
+
+// verifHexRoundTrip feeds the digits produced by the real encoder rtohex to the
+// real digit decoder hexToDigit, folding them the way doubleQuotedInner does
+// (rr = rr*16 + d). Property C03: \xHH, \uHHHH and \UHHHHHHHH written by
+// quoteDouble are read back as the same code point.
+func verifHexRoundTrip(r rune, w int) (back rune, ok bool) {
+	bs := rtohex(r, w)
+	var rr rune
+	for i := 0; i < w; i++ {
+		d, dok := hexToDigit(rune(bs[i]))
+		if !dok {
+			return 0, false
+		}
+		rr = rr*16 + d
+	}
+	return rr, true
+}
